@@ -242,3 +242,14 @@ contract('odml/property.py::BaseProperty.reorder',
          raises={'ValueError': 'field(self, "_parent") is None'},
          on_raise='Same',
          props=('C03', 'C06'))
+
+# ---- item assignment on the child lists ---------------------------------------------------------
+contract('odml/base.py::SmartList.__setitem__',
+         types={'self': 'SmartList', 'key': 'any', 'value': 'any'},
+         requires='owned(self) and (is_int(key) or is_str(key))',
+         ensures=[],
+         may_raise={'ValueError': 'True', 'KeyError': 'True', 'IndexError': 'is_int(key)'},
+         on_raise='Same',
+         invariants={0: 'all(item(_it, j) is replaced or item(_it, j) is value or '
+                        'field(item(_it, j), "_name") != field(value, "_name") for j in range(_i))'},
+         props=('C03', 'C04', 'C06'))
